@@ -5,6 +5,8 @@
                                              Beam/WMoments.v at R (entries of wmean / wcov; C06), Beam/Moments.v total_charge
       Beam Twiss getters                   = Beam/Twiss.v (emittance, tbeta, talpha, norm_emittance; C17), Beam/SI.v (gamma, beta)
       ParameterBeam getters                = Beam/Twiss.v (psigma, pemittance ..; C17)
+      Aperture.track (one particle)        = Diag/Aperture.v (s * mask a p over Q, transported by Q2R; C10)
+      ParticleBeam.mu_x / mu_y             = Diag/Screen.v centroid (the BPM reading, over Q, transported by Q2R; C20)
 
     The particle axis of the code is a list of samples of an arbitrary type S here (sample reading, see
     harness/translate_stats.py); the models of Beam/WStats.v are stated on lists of triples (x, y, w), so the general
@@ -13,8 +15,9 @@
 
     harness/translate_stage.py compiles this file against the fresh StatsGen.v (the import line below is redirected
     to the fresh copy; it must stay on one line, exactly as written). *)
-From Coq Require Import Reals List Lra Lia.
+From Coq Require Import QArith Qreals Reals List Lra Lia.
 From Cheetah Require Import Base.Mat Optics.Maps Beam.Moments Beam.WMoments Beam.WStats Beam.Twiss Beam.TwCorr Beam.SI Gen.StatsGenBase.
+From Cheetah Require Diag.Aperture Diag.Screen.
 From Cheetah.Gen Require Import StatsGen.
 Import ListNotations.
 Open Scope R_scope.
@@ -294,3 +297,203 @@ Lemma qb_alpha_compose tiny :
   = palpha tiny (m7nth cov 0 0) (m7nth cov 0 1) (m7nth cov 1 1).
 Proof. reflexivity. Qed.
 End QB.
+
+(** ** ParticleBeam getters  vs  Beam/WMoments.v at R (C06: survival-weighted mean vector and covariance matrix) *)
+Notation rwvsum := (@WMoments.wvsum R 0 Rplus Rmult).
+Notation rwmean := (@WMoments.wmean R 0 Rplus Rmult Rinv).
+Notation rwcorr := (@WMoments.wcorr R 0 Rplus Rmult Rminus Rinv).
+Notation rwscatter := (@WMoments.wscatter R 0 Rplus Rmult Rminus).
+Notation rwcov := (@WMoments.wcov R 0 Rplus Rmult Rminus Rinv).
+
+Lemma v7nth_map {A B} (f : A -> B) v i : v7nth (v7map f v) i = f (v7nth v i).
+Proof. do 6 (destruct i as [|i]; [reflexivity|]). reflexivity. Qed.
+Lemma v7nth_map2 {A B C} (f : A -> B -> C) u v i : v7nth (v7map2 f u v) i = f (v7nth u i) (v7nth v i).
+Proof. do 6 (destruct i as [|i]; [reflexivity|]). reflexivity. Qed.
+Lemma v7nth_vzero i : v7nth (@vzero R 0) i = 0.
+Proof. do 6 (destruct i as [|i]; [reflexivity|]). reflexivity. Qed.
+Lemma m7nth_Z7 i j : m7nth (@Z7 R 0) i j = 0.
+Proof. unfold m7nth. do 6 (destruct i as [|i]; [apply v7nth_vzero|]). apply v7nth_vzero. Qed.
+
+Lemma gsum_combine_f (f : R -> R) (ws : list R) {T} (xs : list T) :
+  length ws = length xs -> gsum (fun p : R * T => f (fst p)) (combine ws xs) = @lsum R 0 Rplus (map f ws).
+Proof.
+  revert xs. induction ws as [|w r IH]; intros [|x xs] H; try discriminate; [reflexivity|].
+  cbn [combine map]. unfold lsum in *. cbn [fold_right]. rewrite gsum_cons. cbn [fst]. rewrite IH by (cbn in H; lia). reflexivity.
+Qed.
+Lemma lsum_gsum (ws : list R) {T} (xs : list T) : length ws = length xs -> @lsum R 0 Rplus ws = gsum (fun p : R * T => fst p) (combine ws xs).
+Proof. intro H. rewrite (gsum_combine_f (fun w => w)) by exact H. rewrite map_id. reflexivity. Qed.
+
+Lemma wvsum_nth (l : list (R * V7 R)) i :
+  v7nth (@vsum R 0 Rplus (map (fun p => @vscale R Rmult (fst p) (snd p)) l)) i = gsum (fun p => fst p * v7nth (snd p) i) l.
+Proof.
+  induction l as [|p r IH]; [apply v7nth_vzero|].
+  cbn [map]. unfold vsum in *. cbn [fold_right]. unfold vadd at 1. rewrite v7nth_map2, IH, gsum_cons.
+  unfold vscale. rewrite v7nth_map. reflexivity.
+Qed.
+
+Lemma wmean_nth (ws : list R) (xs : list (V7 R)) i : length ws = length xs ->
+  v7nth (rwmean ws xs) i = gsum (fun p => v7nth (snd p) i * fst p) (combine ws xs) / gsum (fun p => fst p) (combine ws xs).
+Proof.
+  intro H. unfold WMoments.wmean, WMoments.wvsum. unfold vscale at 1. rewrite v7nth_map, wvsum_nth, (lsum_gsum ws xs H).
+  unfold Rdiv. rewrite Rmult_comm. f_equal. apply gsum_ext. intro p. ring.
+Qed.
+
+Lemma wscatter_nth (l : list (R * V7 R)) (m : V7 R) i j :
+  m7nth (@msum R 0 Rplus (map (@WMoments.wouter R Rmult Rminus m) l)) i j
+  = gsum (fun p => fst p * (v7nth (snd p) i - v7nth m i) * (v7nth (snd p) j - v7nth m j)) l.
+Proof.
+  induction l as [|p r IH]; [apply m7nth_Z7|].
+  cbn [map]. unfold msum in *. cbn [fold_right]. rewrite gsum_cons, <- IH.
+  unfold m7nth, madd at 1. rewrite v7nth_map2. unfold vadd at 1. rewrite v7nth_map2. f_equal.
+  unfold WMoments.wouter, mscale, outer, vscale, vsub. rewrite !v7nth_map, !v7nth_map2. ring.
+Qed.
+
+Lemma wcorr_gsum (ws : list R) (xs : list (V7 R)) : length ws = length xs ->
+  rwcorr ws = gsum (fun p => fst p) (combine ws xs) - gsum (fun p => fst p ^ 2) (combine ws xs) / gsum (fun p => fst p) (combine ws xs).
+Proof.
+  intro H. unfold WMoments.wcorr. rewrite (lsum_gsum ws xs H). rewrite <- (gsum_combine_f (fun w => w * w) ws xs H).
+  unfold Rdiv. f_equal. f_equal. apply gsum_ext. intro p. ring.
+Qed.
+
+(* entry (i, j) of the weighted covariance matrix = unbiased_weighted_covariance of columns i and j *)
+Lemma wcov_nth (ws : list R) (xs : list (V7 R)) i j : length ws = length xs ->
+  m7nth (rwcov ws xs) i j
+  = gen_unbiased_weighted_covariance (fun p => v7nth (snd p) i) (fun p => v7nth (snd p) j) (fun p : R * V7 R => fst p) (combine ws xs).
+Proof.
+  intro H. cbv beta zeta delta [gen_unbiased_weighted_covariance]. rewrite <- !(wmean_nth ws xs _ H), <- (wcorr_gsum ws xs H).
+  unfold WMoments.wcov, WMoments.wscatter, m7nth, mscale. rewrite v7nth_map. unfold vscale. rewrite v7nth_map.
+  fold (m7nth (@msum R 0 Rplus (map (@WMoments.wouter R Rmult Rminus (rwmean ws xs)) (combine ws xs))) i j).
+  rewrite wscatter_nth. unfold Rdiv. apply Rmult_comm.
+Qed.
+
+(* the diagonal: unbiased_weighted_variance *)
+Lemma wvar_is_wcov {S} (x w : S -> R) l : gen_unbiased_weighted_variance x w l = gen_unbiased_weighted_covariance x x w l.
+Proof.
+  cbv beta zeta delta [gen_unbiased_weighted_variance gen_unbiased_weighted_covariance]. f_equal. apply gsum_ext. intro p. ring.
+Qed.
+
+Section WM.
+Variables (ws : list R) (xs : list (V7 R)).
+Hypothesis Hlen : length ws = length xs.
+Let l := combine ws xs.
+Let P := fun p : R * V7 R => snd p.
+Let s := fun p : R * V7 R => fst p.
+
+Lemma wmoments_mu :
+  c0 (rwmean ws xs) = gen_ParticleBeam_mu_x P s l /\ c1 (rwmean ws xs) = gen_ParticleBeam_mu_px P s l /\
+  c2 (rwmean ws xs) = gen_ParticleBeam_mu_y P s l /\ c3 (rwmean ws xs) = gen_ParticleBeam_mu_py P s l /\
+  c4 (rwmean ws xs) = gen_ParticleBeam_mu_tau P s l /\ c5 (rwmean ws xs) = gen_ParticleBeam_mu_p P s l.
+Proof.
+  repeat split;
+  [ change (c0 (rwmean ws xs)) with (v7nth (rwmean ws xs) 0) | change (c1 (rwmean ws xs)) with (v7nth (rwmean ws xs) 1)
+  | change (c2 (rwmean ws xs)) with (v7nth (rwmean ws xs) 2) | change (c3 (rwmean ws xs)) with (v7nth (rwmean ws xs) 3)
+  | change (c4 (rwmean ws xs)) with (v7nth (rwmean ws xs) 4) | change (c5 (rwmean ws xs)) with (v7nth (rwmean ws xs) 5) ];
+  rewrite (wmean_nth ws xs _ Hlen); reflexivity.
+Qed.
+
+Lemma wmoments_cov :
+  m7nth (rwcov ws xs) 0 1 = gen_ParticleBeam_sigma_xpx P s l /\ m7nth (rwcov ws xs) 2 3 = gen_ParticleBeam_sigma_ypy P s l.
+Proof. split; rewrite (wcov_nth ws xs _ _ Hlen); reflexivity. Qed.
+
+Lemma wmoments_sigma :
+  sqrt (m7nth (rwcov ws xs) 0 0) = gen_ParticleBeam_sigma_x P s l /\ sqrt (m7nth (rwcov ws xs) 1 1) = gen_ParticleBeam_sigma_px P s l /\
+  sqrt (m7nth (rwcov ws xs) 2 2) = gen_ParticleBeam_sigma_y P s l /\ sqrt (m7nth (rwcov ws xs) 3 3) = gen_ParticleBeam_sigma_py P s l /\
+  sqrt (m7nth (rwcov ws xs) 4 4) = gen_ParticleBeam_sigma_tau P s l /\ sqrt (m7nth (rwcov ws xs) 5 5) = gen_ParticleBeam_sigma_p P s l.
+Proof.
+  repeat split; rewrite (wcov_nth ws xs _ _ Hlen), <- wvar_is_wcov; reflexivity.
+Qed.
+End WM.
+
+(** ** Aperture.track  vs  Diag/Aperture.v (over Q, transported by Q2R) *)
+Definition xinj (m : Aperture.Qinf) : xR := match m with Aperture.Fin q => XFin (Q2R q) | Aperture.Inf => XPInf end.
+Definition shinj (s : Aperture.shape) : apshape := match s with Aperture.Rect => Rectangular | Aperture.Ellip => Elliptical end.
+Definition half_nonzero (m : Aperture.Qinf) : Prop := match m with Aperture.Fin q => ~ (q == 0)%Q | Aperture.Inf => True end.
+
+Lemma Q2R_1 : Q2R 1 = 1.
+Proof. unfold Q2R. cbn. lra. Qed.
+Lemma Q2R_0 : Q2R 0 = 0.
+Proof. unfold Q2R. cbn. lra. Qed.
+
+Lemma Qltb_Rlt (a b : Q) : Aperture.Qltb a b = true <-> Q2R a < Q2R b.
+Proof.
+  unfold Aperture.Qltb. rewrite Bool.negb_true_iff. split.
+  - intro H. apply Qlt_Rlt. apply Qnot_le_lt. intro H'. apply Qle_bool_iff in H'. congruence.
+  - intro H. destruct (Qle_bool b a) eqn:E; [|reflexivity]. apply Qle_bool_iff in E. apply Qle_Rle in E. lra.
+Qed.
+
+Lemma lt_max_Rltx x m : Aperture.lt_max x m = true <-> Rltx (Q2R x) (xinj m).
+Proof. destruct m as [q|]; cbn; [apply Qltb_Rlt | tauto]. Qed.
+Lemma gt_negmax_Rgtx x m : Aperture.gt_negmax x m = true <-> Rgtx (Q2R x) (xopp (xinj m)).
+Proof. destruct m as [q|]; cbn; [rewrite Qltb_Rlt, Q2R_opp; lra | tauto]. Qed.
+
+Lemma if_dec_bool {P : Prop} (d : {P} + {~ P}) (b : bool) (u v : R) : (b = true <-> P) -> (if d then u else v) = (if b then u else v).
+Proof. intros [H1 H2]. destruct d as [p|np], b; try reflexivity; [specialize (H2 p); discriminate | exfalso; apply np, H1; reflexivity]. Qed.
+
+Lemma ell_term_xdiv x m : half_nonzero m ->
+  exists a, Aperture.ell_term x m = Some a /\ Q2R a = xdiv (Q2R x ^ 2) (xpow (xinj m) 2).
+Proof.
+  destruct m as [q|]; cbn [half_nonzero Aperture.ell_term xinj xpow xdiv]; intro H.
+  - destruct (Qeq_bool q 0) eqn:E; [apply Qeq_bool_iff in E; contradiction|].
+    eexists; split; [reflexivity|].
+    rewrite Q2R_div by (intro H0; apply H; apply Qmult_integral in H0; tauto).
+    rewrite !Q2R_mult. unfold Rdiv. f_equal; [ring | f_equal; ring].
+  - exists 0%Q. split; [reflexivity | apply Q2R_0].
+Qed.
+
+Lemma gen_Aperture_track_eq (a : Aperture.aperture) {S : Type} (P : S -> V7 R) (sv : S -> R) (i : S) (p : list Q) (s : Q) :
+  c0 (P i) = Q2R (Aperture.px_ p) -> c2 (P i) = Q2R (Aperture.py_ p) -> sv i = Q2R s ->
+  (Aperture.ap_shape a = Aperture.Ellip -> half_nonzero (Aperture.ap_xmax a) /\ half_nonzero (Aperture.ap_ymax a)) ->
+  gen_Aperture_track (xinj (Aperture.ap_xmax a)) (xinj (Aperture.ap_ymax a)) (shinj (Aperture.ap_shape a)) P sv i
+  = Q2R (s * Aperture.mask a p).
+Proof.
+  destruct a as [xm ym sh act]. cbn [Aperture.ap_xmax Aperture.ap_ymax Aperture.ap_shape]. intros Hx Hy Hs Hnz.
+  rewrite Q2R_mult, <- Hs. unfold Aperture.mask, Aperture.inside. cbn [Aperture.ap_xmax Aperture.ap_ymax Aperture.ap_shape].
+  destruct sh; cbv beta iota zeta delta [gen_Aperture_track shinj gen_ParticleBeam_x gen_ParticleBeam_y]; rewrite Hx, Hy; f_equal.
+  - unfold Aperture.rect_in.
+    rewrite (if_dec_bool _ (Aperture.gt_negmax (Aperture.px_ p) xm)) by apply gt_negmax_Rgtx.
+    rewrite (if_dec_bool _ (Aperture.lt_max (Aperture.px_ p) xm)) by apply lt_max_Rltx.
+    rewrite (if_dec_bool _ (Aperture.gt_negmax (Aperture.py_ p) ym)) by apply gt_negmax_Rgtx.
+    rewrite (if_dec_bool _ (Aperture.lt_max (Aperture.py_ p) ym)) by apply lt_max_Rltx.
+    destruct (Aperture.gt_negmax (Aperture.px_ p) xm), (Aperture.lt_max (Aperture.px_ p) xm),
+             (Aperture.gt_negmax (Aperture.py_ p) ym), (Aperture.lt_max (Aperture.py_ p) ym); cbn; auto using Q2R_1, Q2R_0.
+  - destruct (Hnz eq_refl) as [Hnx Hny].
+    destruct (ell_term_xdiv (Aperture.px_ p) xm Hnx) as [ta [Ea Ra]].
+    destruct (ell_term_xdiv (Aperture.py_ p) ym Hny) as [tb [Eb Rb]].
+    unfold Aperture.ell_in. rewrite Ea, Eb, <- Ra, <- Rb.
+    rewrite (if_dec_bool _ (Qle_bool (ta + tb) 1)).
+    + destruct (Qle_bool (ta + tb) 1); auto using Q2R_1, Q2R_0.
+    + rewrite Qle_bool_iff. rewrite <- Q2R_plus, <- Q2R_1 at 1. split; [apply Qle_Rle | apply Rle_Qle].
+Qed.
+
+(* precondition (the first assert of track): both half sizes are >= 0 *)
+Lemma gen_Aperture_track_pre_eq (xm ym : xR) (sh : apshape) {S : Type} (P : S -> V7 R) (sv : S -> R) :
+  gen_Aperture_track_pre xm ym sh P sv <-> Rlex 0 xm /\ Rlex 0 ym.
+Proof. cbv beta iota zeta delta [gen_Aperture_track_pre]. destruct sh; tauto. Qed.
+
+(** ** BPM reading of a ParticleBeam (Diag/Screen.v [centroid], over Q)  =  ParticleBeam.mu_x / mu_y  (C20)
+    BPM.track itself (which getters it stacks, the dispatch on the beam type) is not translated. *)
+Lemma Q2R_sumQ {T} (g : T -> Q) (l : list T) : Q2R (Screen.sumQ (map g l)) = gsum (fun p => Q2R (g p)) l.
+Proof.
+  induction l as [|p r IH]; [unfold Q2R; cbn; lra|].
+  cbn [map]. unfold Screen.sumQ in *. cbn [fold_right]. rewrite Q2R_plus, IH. reflexivity.
+Qed.
+
+(* a Screen.v particle as a sample: coordinates (x, px, y, py, 0, 0, 1), survival probability p_s *)
+Definition scr_row (p : Screen.particle) : V7 R :=
+  mk7 (Q2R (Screen.p_x p)) (Q2R (Screen.p_px p)) (Q2R (Screen.p_y p)) (Q2R (Screen.p_py p)) 0 0 1.
+Definition scr_surv (p : Screen.particle) : R := Q2R (Screen.p_s p).
+
+Lemma bpm_centroid_mu_x (ps : list Screen.particle) : ~ (Screen.sumQ (map Screen.p_s ps) == 0)%Q ->
+  gen_ParticleBeam_mu_x scr_row scr_surv ps = Q2R (Screen.centroid Screen.p_x ps).
+Proof.
+  intro H. unfold Screen.centroid. rewrite Q2R_div by exact H. rewrite !Q2R_sumQ.
+  cbv beta delta [gen_ParticleBeam_mu_x gen_ParticleBeam_x]. unfold Rdiv. f_equal.
+  apply gsum_ext. intro p. rewrite Q2R_mult. reflexivity.
+Qed.
+Lemma bpm_centroid_mu_y (ps : list Screen.particle) : ~ (Screen.sumQ (map Screen.p_s ps) == 0)%Q ->
+  gen_ParticleBeam_mu_y scr_row scr_surv ps = Q2R (Screen.centroid Screen.p_y ps).
+Proof.
+  intro H. unfold Screen.centroid. rewrite Q2R_div by exact H. rewrite !Q2R_sumQ.
+  cbv beta delta [gen_ParticleBeam_mu_y gen_ParticleBeam_y]. unfold Rdiv. f_equal.
+  apply gsum_ext. intro p. rewrite Q2R_mult. reflexivity.
+Qed.
